@@ -1026,8 +1026,9 @@ impl<'r> Gen<'r> {
         // place (`x.acc = x.acc op v`), so the place is read before and written after `v` runs, with
         // its index expressions evaluated twice: `v` then neither assigns to `x` nor (if an index is
         // not a literal) to anything else. Plain assignments need no mask.
-        let masked = op.is_some() && !accs.is_empty();
-        let mask_all = masked && accs.iter().any(|a| matches!(a, Acc::Index(i) if !matches!(i.kind, ExprKind::Lit(_))));
+        // (no longer in force: KF-C14-2 was repaired, the indices of the place are evaluated once)
+        let masked = false;
+        let mask_all = false;
         if masked {
             self.no_assign.push(if mask_all { "*".to_string() } else { v.name.clone() });
         }
